@@ -7,6 +7,10 @@ from .c12 import add_frame
 def run(tier, seed):
     rep = Report("C15", tier, seed, "other")
     add_frame(rep, "C15", filter_fn=lambda o: o["func"].startswith(("markdown_it.renderer.", "markdown_it.token.", "markdown_it.tree.")))
+    from .. import frame as _fr
+    from ..report import Ob
+    for o in _fr.renderer_ownership_obligations():
+        rep.obs.append(Ob(oid=f"C15/{o['oid']}", kind="FRAME", func=o["func"], backend="frame", verdict=o["verdict"], info=o["info"], line=o["line"], solver="ownership analysis"))
     lines_universe(rep, "vf.oracles:c15_roundtrip", tier, "Token.as_dict/from_dict, SyntaxTreeNode, RendererHTML.render",
                    "dict round trip (both attribute formats) equal and renders equal; tree round trip, walk order, parent/sibling links; render twice equal, tokens unchanged (except image alt)")
     inline_universe(rep, "vf.oracles:c15_roundtrip", tier, "same", "same contract on inline-heavy inputs", quick_k=2, thorough_k=3)
